@@ -350,6 +350,8 @@ pub struct ExecTrace {
     pub blocked_events: u32,
     /// (worker that blocked, its last point, last points of all workers) at each detection
     pub blocked: Vec<(usize, u32, Vec<u32>)>,
+    /// unexplained blocks of examined workers that persisted: (worker, its last point, last points of all, ms observed)
+    pub unexplained: Vec<(usize, u32, Vec<u32>, u64)>,
 }
 
 pub enum Strategy {
@@ -363,6 +365,23 @@ pub enum Strategy {
 
 pub struct Job {
     pub workers: Vec<Box<dyn FnOnce(Arc<Inner>) + Send>>,
+    /// workers whose blocking is examined more closely (the readers): when one of them is found in a
+    /// lock wait that no other worker's position explains, the controller keeps everybody parked and
+    /// measures how long the wait persists (a wait on a lock of the allocator or of the harness, held by
+    /// a descheduled thread, ends by itself within microseconds to milliseconds)
+    pub examine: Vec<bool>,
+}
+
+/// the locks a reader takes after each of its yield points, and the positions of OTHER workers that
+/// can legitimately be holding them (see c04.rs)
+pub fn block_is_explained(last: u32, lasts: &[u32], me: usize) -> bool {
+    let holders: &[u32] = match last {
+        1 => &[13, 14, 15],
+        2 | 16 => &[3],
+        4 => &[15],
+        _ => return true,
+    };
+    lasts.iter().enumerate().any(|(i, p)| i != me && holders.contains(p))
 }
 
 /// Run the workers under the baton.  `watchdog_ms`: generous wall-clock limit;
@@ -371,6 +390,7 @@ pub fn run_baton(job: Job, strategy: Strategy, watchdog_ms: u64) -> ExecTrace {
     let g = global();
     let n = job.workers.len();
     assert!(n <= MAX_WORKERS);
+    let examine = job.examine.clone();
     g.reset_slots();
     g.mode.store(MODE_BATON, Ordering::SeqCst);
     let mut handles = Vec::new();
@@ -427,6 +447,22 @@ pub fn run_baton(job: Job, strategy: Strategy, watchdog_ms: u64) -> ExecTrace {
                             blocked[c] = true;
                             trace.blocked_events += 1;
                             let lasts: Vec<u32> = (0..n).map(|i| if g.slots[i].finished.load(Ordering::Acquire) { 0 } else { g.slots[i].last_point.load(Ordering::Acquire) }).collect();
+                            if examine.get(c).copied().unwrap_or(false) && !block_is_explained(lasts[c], &lasts, c) {
+                                // nobody else is running (the baton has not been handed on): a lock of the database
+                                // can only be held by a parked worker, and then this wait does not end by itself
+                                let t0 = std::time::Instant::now();
+                                let mut still = true;
+                                while t0.elapsed().as_millis() < 250 {
+                                    if s.finished.load(Ordering::Acquire) || s.arrived.load(Ordering::Acquire) != 0 || !tid_in_futex(tid) {
+                                        still = false;
+                                        break;
+                                    }
+                                    short_sleep(500);
+                                }
+                                if still {
+                                    trace.unexplained.push((c, lasts[c], lasts.clone(), t0.elapsed().as_millis() as u64));
+                                }
+                            }
                             trace.blocked.push((c, lasts[c], lasts));
                             break;
                         }
